@@ -332,7 +332,9 @@ class Builder:
         with self.in_block_context(context, "subcircuit"):
             statements = [self.build(arg, context, gate_context) for arg in args[1:]]
             count = args[0]
-            if count == "":
+            if count is None or count == "":
+                # No iteration count given (None comes from the
+                # object-oriented builder, "" from the parser)
                 built_count = 1
             else:
                 built_count = self.build(count, context, gate_context)
@@ -666,7 +668,7 @@ class BlockBuilder:
         :type iterations: int, str, AnnotatedValue, or None
         """
 
-        builder = SubcircuitBlockBuilder()
+        builder = SubcircuitBlockBuilder(iterations)
         self.expression.append(builder.expression)
         return builder
 
